@@ -203,3 +203,7 @@ fn intersects(record: &sam::alignment::RecordBuf, region_interval: Interval) -> 
         _ => false,
     }
 }
+
+#[cfg(kani)]
+#[path = "/verif/harness/cram/query.rs"]
+mod verif_kani;
